@@ -28,6 +28,11 @@ impl Deflate {
             handle: tokio::task::spawn_blocking(move || {
                 let mut dst = Vec::new();
 
+                #[cfg(noodles_verif)]
+                crate::verif::hit(crate::verif::Site::AsyncDeflateTaskStart, &data);
+                #[cfg(noodles_verif)]
+                let _verif_guard = VerifTaskEnd(&data);
+
                 deflate::encode(&data, compression_level, &mut dst)
                     .map(|crc32| (dst, crc32, data.len()))
             }),
@@ -40,5 +45,15 @@ impl Future for Deflate {
 
     fn poll(self: Pin<&mut Self>, cx: &mut Context<'_>) -> Poll<Self::Output> {
         self.project().handle.poll(cx)?
+    }
+}
+
+#[cfg(noodles_verif)]
+struct VerifTaskEnd<'a>(&'a [u8]);
+
+#[cfg(noodles_verif)]
+impl Drop for VerifTaskEnd<'_> {
+    fn drop(&mut self) {
+        crate::verif::hit(crate::verif::Site::AsyncDeflateTaskEnd, self.0);
     }
 }
